@@ -2,6 +2,7 @@ package gedcom
 
 import (
 	"fmt"
+	"sync"
 	"time"
 )
 
@@ -15,12 +16,16 @@ type FamilyNode struct {
 	// The cached values above are only valid while these are the current
 	// cache generation, see invalidateCaches.
 	husbandGeneration, wifeGeneration int64
+
+	// The husband and wife are found on demand, which can happen from several
+	// goroutines at the same time (such as when comparing individuals with
+	// multiple jobs).
+	husbandMutex, wifeMutex sync.Mutex
 }
 
 func newFamilyNode(document *Document, pointer string, children ...Node) *FamilyNode {
 	return &FamilyNode{
-		newSimpleDocumentNode(document, TagFamily, "", pointer, children...),
-		false, false, nil, nil, 0, 0,
+		simpleDocumentNode: newSimpleDocumentNode(document, TagFamily, "", pointer, children...),
 	}
 }
 
@@ -29,6 +34,9 @@ func (node *FamilyNode) Husband() (husband *HusbandNode) {
 	if node == nil {
 		return nil
 	}
+
+	node.husbandMutex.Lock()
+	defer node.husbandMutex.Unlock()
 
 	generation := currentCacheGeneration()
 	if node.cachedHusband && node.husbandGeneration == generation {
@@ -55,6 +63,9 @@ func (node *FamilyNode) Wife() (wife *WifeNode) {
 	if node == nil {
 		return nil
 	}
+
+	node.wifeMutex.Lock()
+	defer node.wifeMutex.Unlock()
 
 	generation := currentCacheGeneration()
 	if node.cachedWife && node.wifeGeneration == generation {
